@@ -649,7 +649,7 @@ CLAIM24 = dict(
          "with a real git history and `plz query changes` is run with a file list and with --since at level -1 and 0; a target of Affected "
          "(level -1) or Direct (level 0) that is not printed is a violation; Affected itself is cross-checked against the targets a real "
          "incremental build re-executes or whose outputs change.",
-    note="Bounded: 5 target slots, 5 base repositories, <=2 changed files, one definition edit per case; levels -1 and 0 only; a dependent that "
+    note="Bounded: 5 target slots, 6 base repositories, <=2 changed files, one definition edit per case; levels -1 and 0 only; a dependent that "
          "`requires` what a provider provides is taken to depend on the provided target (weakest reading), so only effective edges propagate; "
          "file-list mode is asked only where no definition changed; manual-labelled targets, subrepos, deleted files and subincludes are not modelled; "
          "trusted: git, the generated commands' action log, TLC.",
@@ -659,7 +659,7 @@ CLAIM24 = dict(
 @register("C24", claim=CLAIM24)
 def run_c24(ctx):
     vlib.build_plz()
-    ctx.rule = ("every before/after case of Changes.tla (5 base repositories x {1-2 changed files, one-field definition edit [x one changed file in thorough], "
+    ctx.rule = ("every before/after case of Changes.tla (6 base repositories x {1-2 changed files, one-field definition edit [x one changed file in thorough], "
                 "new target, configuration change}) enumerated by TLC; quick: seeded sample stratified by (number of files, reasons, modes); "
                 "non-trivial = Affected has a target beyond Direct or a definition/config edit; distinct by (before, after, files, config)")
     ctx.assumptions += ["a dependent that requires what a declared dependency provides depends on the provided target, not on the provider (effective edges)",
